@@ -17,12 +17,15 @@ import (
 	"bytes"
 	"context"
 	"fmt"
+	"io"
+	"log"
 	"math"
 	"os"
 	"sort"
 	"strconv"
 	"strings"
 	"sync"
+	"time"
 
 	"diagonal.works/b6"
 	"diagonal.works/b6/ingest"
@@ -237,6 +240,7 @@ type input struct {
 	order     []osm.Element // the elements in file / emission order: nodes, ways, relations
 	wf        bool          // geometrically well formed, unique IDs, no reference cycles: world ops make sense
 	emptyWay  bool
+	compact   bool // also build the compact world
 }
 
 func (in *input) finish() {
@@ -341,6 +345,14 @@ func clockwise(in *input) []int64 {
 	return cw
 }
 
+var timing = map[string]time.Duration{}
+
+func timed(name string, f func() string) string {
+	t0 := time.Now()
+	defer func() { timing[name] += time.Since(t0) }()
+	return hx.Recover(f)
+}
+
 func run(c *hx.Ctx, in *input) {
 	in.finish()
 	t := &tw{}
@@ -349,7 +361,7 @@ func run(c *hx.Ctx, in *input) {
 		writeElem(t, e)
 	}
 	src := &ingest.MemoryOSMSource{Nodes: in.nodes, Ways: in.ways, Relations: in.relations}
-	ans := hx.Recover(func() string { return readSource(src, 1) })
+	ans := timed("source-mem", func() string { return readSource(src, 1) })
 	c.Op("source mem "+t.String(), ans)
 	c.Note("source-mem:" + strings.SplitN(ans, " ", 2)[0])
 	if in.emptyWay {
@@ -363,7 +375,7 @@ func run(c *hx.Ctx, in *input) {
 	defer os.Remove(fn)
 	for _, cores := range []int{1, 3} {
 		psrc := &ingest.PBFFilesOSMSource{Glob: fn, FailWhenNoFiles: true}
-		c.Op(fmt.Sprintf("source pbf %d", cores), hx.Recover(func() string { return readSource(psrc, cores) }))
+		c.Op(fmt.Sprintf("source pbf %d", cores), timed("source-pbf", func() string { return readSource(psrc, cores) }))
 	}
 	if !in.wf {
 		return
@@ -375,7 +387,7 @@ func run(c *hx.Ctx, in *input) {
 		cwt.i(id)
 	}
 	c.Note(fmt.Sprintf("world:clockwise-ways:%d", min(len(cw), 3)))
-	c.Op("world mem 1 "+cwt.String(), hx.Recover(func() string {
+	c.Op("world mem 1 "+cwt.String(), timed("world-mem", func() string {
 		w, err := ingest.BuildWorldFromOSM(in.nodes, in.ways, in.relations, &ingest.BuildOptions{Cores: 1})
 		if err != nil {
 			return "err"
@@ -383,14 +395,20 @@ func run(c *hx.Ctx, in *input) {
 		return dumpWorld(w)
 	}))
 	cores := 1 + c.Rand.Intn(3)
-	c.Op(fmt.Sprintf("world pbf %d %s", cores, cwt.String()), hx.Recover(func() string {
+	c.Op(fmt.Sprintf("world pbf %d %s", cores, cwt.String()), timed("world-pbf", func() string {
 		w, err := ingest.NewWorldFromPBFFile(fn, &ingest.BuildOptions{Cores: cores})
 		if err != nil {
 			return "err"
 		}
 		return dumpWorld(w)
 	}))
-	c.Op("world compact 1 "+cwt.String(), hx.Recover(func() string {
+	// the compact builder allocates several 80 MB encoding buffers per build (a second on an idle machine,
+	// ten on a loaded one): only the first corpus input in the quick tier, sampled in the thorough tier
+	if !(in.compact || (c.Thorough() && c.Rand.Chance(1, 300))) {
+		return
+	}
+	c.Note("world:compact")
+	c.Op("world compact 1 "+cwt.String(), timed("world-compact", func() string {
 		source, err := ingest.NewFeatureSourceFromPBF(src, &ingest.BuildOptions{Cores: 1}, context.Background())
 		if err != nil {
 			return "err"
@@ -631,15 +649,23 @@ func square(ids [4]int64, lat, lng float64) []osm.Node {
 }
 
 func main() {
+	log.SetOutput(io.Discard) // the compact builder logs its progress
+	defer func() {
+		if os.Getenv("C29_TIMING") != "" {
+			for k, v := range timing {
+				fmt.Fprintf(os.Stderr, "timing %s %v\n", k, v)
+			}
+		}
+	}()
 	hx.Main(hx.Family{
 		Name: "c29",
 		Rule: "OSM inputs (well formed: nodes on circles, open/closed ways either direction, multipolygon and plain relations over nodes/ways/relations present and missing, tag keys in and out of the mapping; and unconstrained ones with duplicate/extreme IDs and degenerate ways) through the feature source (memory and PBF, 1 and 3 goroutines) and the basic and compact world builders; non-trivial = a plain relation with a member that is a closed way or a multipolygon relation of the input",
 		Quick:    2500,
-		Thorough: 60000,
+		Thorough: 30000,
 		Corpus: func(c *hx.Ctx) {
 			// fixed (fixes/C29-relation-member-area-id.patch): a plain relation with a closed-way member and a
 			// multipolygon member; before the fix both members got the path / relation ID
-			in := &input{wf: true}
+			in := &input{wf: true, compact: true}
 			in.nodes = square([4]int64{1, 2, 3, 4}, 51.5, -0.1)
 			in.ways = []osm.Way{{ID: 10, Nodes: []osm.NodeID{1, 2, 3, 4, 1}, Tags: osm.Tags{{Key: "building", Value: "yes"}}}}
 			in.relations = []osm.Relation{
